@@ -146,6 +146,10 @@ def run_case(case):
     if mode == 'auto':
         t.count('auto_class_sets')
     spec = dict(name=name, precision=prec, partitions=declared)
+    if declared is not None and rng.random() < 0.4:
+        ok_dt = [d for d in ('uint8', 'uint16', 'int16', 'uint32', 'int64') if min(declared) >= np.iinfo(d).min and max(declared) <= np.iinfo(d).max]
+        spec['partitions_as'] = ok_dt[int(rng.integers(len(ok_dt)))]
+        t.count('class_list_as_ndarray')
     sizes = [n] if (mode == 'auto' and n < 3) or rng.random() < 0.4 else gen.split_sizes(rng, n, kmax=3)
     if foreign_rows and declared is None:
         # the automatic class set is frozen by the first batch: it must end before the first foreign value
